@@ -181,11 +181,12 @@ pub fn probe(port: u16, n_socks: usize, per_sock: usize, rng: &mut Rng, srv: &[u
 }
 
 /// closed-loop clients: each thread owns a socket and sends `requests` requests one after another
-pub fn closed_loop(port: u16, clients: usize, requests: usize, seed: u64, srv: Vec<u8>, stop: Arc<AtomicBool>) -> Vec<Exchange> {
+pub fn closed_loop(port: u16, clients: usize, requests: usize, seed: u64, srv: Vec<u8>, stop: Arc<AtomicBool>, progress: Arc<std::sync::atomic::AtomicU64>) -> Vec<Exchange> {
     let mut handles = vec![];
     for c in 0..clients {
         let srv = srv.clone();
         let stop = stop.clone();
+        let progress = progress.clone();
         handles.push(std::thread::spawn(move || {
             let mut rng = Rng::new(seed ^ (c as u64 + 1) * 0x9E37);
             let s = UdpSocket::bind("127.0.0.1:0").unwrap();
@@ -198,7 +199,7 @@ pub fn closed_loop(port: u16, clients: usize, requests: usize, seed: u64, srv: V
                 let t0 = now_ns();
                 let _ = s.send_to(&rq, ("127.0.0.1", port));
                 let mut replies = vec![];
-                if let Ok((n, _)) = s.recv_from(&mut buf) { replies.push(buf[..n].to_vec()); }
+                if let Ok((n, _)) = s.recv_from(&mut buf) { replies.push(buf[..n].to_vec()); progress.fetch_add(1, Ordering::Relaxed); }
                 let t1 = now_ns();
                 out.push(Exchange { sock: c, request: rq, replies, t_before: t0, t_after: t1 });
             }
@@ -336,12 +337,13 @@ pub fn run_scenarios(path: &str, out_prefix: &str, server_bin: &str, workdir: &s
         }
         // ---- closed-loop load
         let stop = Arc::new(AtomicBool::new(false));
+        let progress = Arc::new(std::sync::atomic::AtomicU64::new(0));
         let mut load_handle = None;
         if let Some(l) = sc.get("load").filter(|l| l.is_object()) {
             if sp.alive() {
                 let (c, r) = (l["clients"].as_u64().unwrap_or(8) as usize, l["requests"].as_u64().unwrap_or(20) as usize);
-                let (port, srv2, stop2, sd) = (sp.port, srv.clone(), stop.clone(), rng.next_u64());
-                load_handle = Some(std::thread::spawn(move || closed_loop(port, c, r, sd, srv2, stop2)));
+                let (port, srv2, stop2, sd, pr) = (sp.port, srv.clone(), stop.clone(), rng.next_u64(), progress.clone());
+                load_handle = Some(std::thread::spawn(move || closed_loop(port, c, r, sd, srv2, stop2, pr)));
             }
         }
         // ---- signal: idle / during load / during an open-loop flood
@@ -351,7 +353,22 @@ pub fn run_scenarios(path: &str, out_prefix: &str, server_bin: &str, workdir: &s
         if let Some(sg) = sc.get("signal").filter(|s| s.is_object()) {
             let mode = sg["mode"].as_str().unwrap_or("idle");
             if mode == "flood" { flood_handles = flood(sp.port, sg["senders"].as_u64().unwrap_or(3) as usize, flood_stop.clone()); }
-            std::thread::sleep(Duration::from_millis(sg["delay_ms"].as_u64().unwrap_or(100)));
+            let delay = sg["delay_ms"].as_u64().unwrap_or(100);
+            if mode == "load_quiet" {
+                // adversarial timing: signal at the moment the server stops answering the closed-loop clients
+                // (no reply for 250 ms), or at the latest after delay_ms
+                let t0 = Instant::now();
+                let mut last = progress.load(Ordering::Relaxed);
+                let mut last_change = Instant::now();
+                while (t0.elapsed().as_millis() as u64) < delay {
+                    std::thread::sleep(Duration::from_millis(25));
+                    let now = progress.load(Ordering::Relaxed);
+                    if now != last { last = now; last_change = Instant::now(); }
+                    else if t0.elapsed().as_millis() > 400 && last_change.elapsed().as_millis() >= 250 { break; }
+                }
+            } else {
+                std::thread::sleep(Duration::from_millis(delay));
+            }
             let was_alive = sp.alive();
             let signame = sg["sig"].as_str().unwrap_or("TERM");
             sp.signal(signame);
